@@ -74,15 +74,19 @@ CHECKS = {
         ref="DESIGN.md section 4, C14"),
     "C20": dict(
         category="model_checking",
-        text="The data-structure specifications (Lmq, IdMap, Msg) give every allocating operation a second outcome: NNG_ENOMEM with the "
-             "abstract state unchanged.  Walks of the TLC graphs are replayed normally while counting the allocations of every step; then "
-             "every allocating step is replayed with its k-th allocation failing (fault-injecting allocator), followed by the same call "
-             "again and the rest of the walk.  Accepted: ENOMEM with all observables unchanged and the retry and the remainder conforming "
-             "to the specification, or the specified result (the block was not needed); ASan/UBSan and the allocator balance at the end.",
-        note="Trusted: TLC, harness/drv_data.c + acct.c, ASan/UBSan. Only objects reachable without the I/O framework are injected (lmq, id "
-             "map, nng_msg); sockets, transports, URL/HTTP and background threads are not.",
-        technique="TLA+ specification with failure outcomes + fault-injection replay of the TLC graph on the implementation",
-        ref="DESIGN.md section 4, C20"),
+        text="(1) The data-structure specifications (Lmq, IdMap, Msg) give every allocating operation a second outcome: NNG_ENOMEM with the "
+             "abstract state unchanged.  Walks of the TLC graphs are replayed while counting the allocations of every step; then every "
+             "allocating step is replayed with its k-th allocation failing, followed by the same call again and the rest of the walk.  "
+             "Accepted: ENOMEM with all observables unchanged and the retry and the remainder conforming, or the specified result.  "
+             "(2) API programs over sockets and the real tcp, ipc and ws transports (behaviours of wire/Framing.tla and wire/Ws.tla: open, "
+             "listen, peers connecting, handshakes, upgrades, frames, sends, disconnects, close) are run with every allocation of the "
+             "program failing in turn, in whatever thread it happens; the verdict there is survival: no crash (ASan/UBSan/panic), no hang, "
+             "every block returned after close.",
+        note="Trusted: TLC, harness (drv_data, drv_wire, drv_ws, acct.c), ASan/UBSan. Conformance under failure only for lmq/id map/nng_msg; "
+             "for sockets/transports what the program observes after the failure is not compared.  Harness-transport programs, URL "
+             "parsing, statistics snapshots and the HTTP client are not injected.",
+        technique="TLA+ specification with failure outcomes + fault-injection replay of TLC behaviours on the implementation",
+        ref="DESIGN.md section 4, C20 and section 9"),
     "C12": dict(
         category="model_checking",
         text="proto/Req.tla: invariants NoOrphan (an unanswered request is queued for a pipe, or has a resend scheduled on a running "
